@@ -330,6 +330,12 @@ class ForceMatrix:
             for e in edges_to_use:
                 self.frame.edges[e].tension = float(xres[index])
 
+        # interfaces left out by the angle limit must not keep the tension of an earlier solve
+        for big_edge in self.frame.internal_big_edges:
+            if big_edge.get_vertices_ids() not in self.big_edges_to_use:
+                for e in big_edge.edges:
+                    self.frame.edges[e].tension = 0.0
+
         xres = xres[:-1]
         xres = self.get_solution_no_discarded(xres)
         self.force_dictionary = {}
